@@ -45,7 +45,7 @@ def c02(ctx: Ctx):
         ctx.exhaustive = True
     ctx.build_driver()
     logp = os.path.join(ctx.scratch, "log.ndjson")
-    ctx.drive(cases, logp, shards=4)
+    ctx.drive(cases, logp, shards=(8 if ctx.tier == "thorough" else 4))
     rng = random.Random(ctx.seed)
     for l in open(logp):
         o = json.loads(l)
